@@ -11,6 +11,8 @@ import (
 
 	nvidiav1 "github.com/NVIDIA/gpu-operator/api/nvidia/v1"
 	monitoringv1 "github.com/prometheus-operator/prometheus-operator/pkg/apis/monitoring/v1"
+	admissionregistrationv1 "k8s.io/api/admissionregistration/v1"
+	appsv1 "k8s.io/api/apps/v1"
 	v1 "k8s.io/api/core/v1"
 	resourceapi "k8s.io/api/resource/v1"
 	schedulingv1 "k8s.io/api/scheduling/v1"
@@ -49,10 +51,15 @@ var statusScheme = func() *runtime.Scheme {
 	return s
 }()
 
-// operatorScheme = what cmd/operator/app registers.
+// operatorScheme: cmd/operator/app registers clientgoscheme + apiextensions + kai v1/v1alpha1 +
+// nvidia v1 + monitoring v1; of clientgoscheme only the groups the operands read or write are
+// registered (core, apps, admissionregistration) - same reason as statusScheme. A kind the
+// operands touched outside these groups would fail loudly ("no kind is registered").
 var operatorScheme = func() *runtime.Scheme {
 	s := runtime.NewScheme()
-	utilruntime.Must(clientgoscheme.AddToScheme(s))
+	utilruntime.Must(v1.AddToScheme(s))
+	utilruntime.Must(appsv1.AddToScheme(s))
+	utilruntime.Must(admissionregistrationv1.AddToScheme(s))
 	utilruntime.Must(apiextensionsv1.AddToScheme(s))
 	utilruntime.Must(kaiv1.AddToScheme(s))
 	utilruntime.Must(kaiv1alpha1.AddToScheme(s))
